@@ -1044,6 +1044,17 @@ impl OwnershipRegisters {
         }
     }
 
+    /// Verification hook: construct ownership registers from raw values.
+    #[cfg(feature = "verif-hooks")]
+    pub fn verif_new(sp: u64, ssp: u64, hp: u64, prev_hp: u64) -> Self {
+        OwnershipRegisters {
+            sp,
+            ssp,
+            hp,
+            prev_hp,
+        }
+    }
+
     /// Create an instance that only allows stack writes.
     pub(crate) fn only_allow_stack_write(sp: u64, ssp: u64, hp: u64) -> Self {
         debug_assert!(sp <= VM_MAX_RAM);
